@@ -1,6 +1,7 @@
 //@inject src/vdaf/poplar1.rs
 //@harness pop_input_share_len32 | bounded(corr_inner len<=2, zero leaf elements) | Poplar1InputShare<32>/<16>::encoded_len() == number of bytes encode() appends (the deployed 32-byte-seed instance included)
 //@harness pop_agg_param_header_total | bounded(buffer<=11 bytes; level in {0,6,7,8,15,0xFFFE,0xFFFF} x count in {0,1,2,3,6,2^32-1}; IdpfInput construction stubbed) | Poplar1AggregationParam::decode: at the extreme header values the header arithmetic does not overflow or panic, the prefix count is validated against the remaining bytes before allocating, result is Ok or Err
+//@harness pop_agg_param_decode_levels | bounded(no prefixes: count field 0, 6-byte input) | Poplar1AggregationParam::decode: for EVERY u16 level the header arithmetic ((level+1) rounded up to bytes, trailing-bit mask) does not overflow or panic
 //@harness pop_agg_param_encoded_len | complete | Poplar1AggregationParam::encoded_len == 6 + ceil((level+1)/8) * #prefixes for every u16 level, no overflow
 //@harness pop_verifier_msg_canon | bounded(lengths 0, L-1, L, L+1) | Poplar1VerifierMessage (inner sketch / done): decoder total, canonical, length-exact, for both sketch states
 //@harness pop_sketch_state_tags | complete | VerifierStateVariant / SketchState tag bytes: 0 and 1 accepted, every other tag => Err(UnexpectedValue); is_leader derives from agg_id == 0
@@ -83,6 +84,22 @@ mod verif_c07_poplar1 {
         if k > 0 && (cnt as usize) > remaining / pbl { assert!(matches!(r, Err(CodecError::LengthPrefixTooBig(_))) && seen == usize::MAX); }
         kani::cover!(seen == 2);
         kani::cover!(lvl == 0xFFFF && k == 2);
+        forget(r);
+    }
+
+    #[kani::proof]
+    #[kani::unwind(10)]
+    #[kani::stub(crate::idpf::IdpfInput::from_bytes, crate::idpf::verif_idpf_util::stub_from_bytes)]
+    #[kani::stub(crate::idpf::IdpfInput::prefix, crate::idpf::verif_idpf_util::stub_prefix)]
+    #[kani::stub(Poplar1AggregationParam::try_from_prefixes, stub_try_from_prefixes)]
+    fn pop_agg_param_decode_levels() {
+        let level: u16 = kani::any();
+        let b = [(level >> 8) as u8, level as u8, 0, 0, 0, 0];
+        let mut c = Cursor::new(&b[..]);
+        let r = Poplar1AggregationParam::decode(&mut c);
+        assert!(r.is_err());                       // the stubbed try_from_prefixes refuses the empty list
+        assert!(unsafe { SEEN_PREFIXES } == 0);    // ... and was reached: no panic, no overflow on the way
+        kani::cover!(level == 0xFFFF);
         forget(r);
     }
 
